@@ -11,7 +11,7 @@ PLANS = [["eval2"], ["eval2", "edit", "eval2"], ["eval", "eval2"], ["evalB", "ev
 
 
 def _shapes(tier: str):
-    S = shp.core_shapes() + [s for s in shp.load_shapes() if "load-before-producer" not in s.tags]
+    S = shp.core_shapes() + [s for s in shp.load_shapes() if "load-before-producer" not in s.tags] + shp.graph_shapes()
     return S
 
 
